@@ -218,6 +218,15 @@ WellFormed(m) ==
         /\ (a.kind = "raw" => Len(a.val[2]) <= 65535))
   /\ (p[1] = "nw" => \A i \in 1..Len(p[2]) : Len(p[2][i]) <= 65535)
 
+\* "Payload length consistent with the payload" relative to a given serialisation: C01, C05 and C15 speak about a message and
+\* ITS serialised bytes, whatever layout the writer gives the payload (that the layout is the prescribed one is C02 alone).  A
+\* trace line that carries a message value m and the bytes b the implementation wrote for it satisfies the premise when m is
+\* well formed up to the payload length and the recorded payload length is the one b has (b = [storage header] headers payload).
+WellFormedModLen(m) == WellFormed([m EXCEPT !.h.plen = Len(EncPayload(m.p, m.h.be))])
+MsgDeclaredLen(m) == (IF IsSome(m.sh) THEN 16 ELSE 0) + m.h.plen
+                  + HdrsLen(HtypEnc([ueh |-> m.h.ueh, be |-> m.h.be, weid |-> IsSome(m.h.ecu), wsid |-> IsSome(m.h.sid), wtms |-> IsSome(m.h.tms), ver |-> m.h.ver]))
+WellFormedFor(m, b) == WellFormedModLen(m) /\ MsgDeclaredLen(m) = Len(b) /\ MsgDeclaredLen(m) - (IF IsSome(m.sh) THEN 16 ELSE 0) <= 65535
+
 \* ---------------------------------------------------------------- lengths and validity (C15)
 ArgLen(a) == Len(EncArg(a, TRUE))                     \* = Len(EncArg(a, FALSE)): MC theorem ArgLenOrderFree
 ArgValid(a) == CASE a.kind = "bool"  -> a.val[1] = "bool"
